@@ -85,9 +85,21 @@ func (h OperatorHooksWrapper) AfterOperatorKeyRemovalInitiated(
 		if found {
 			h.keeper.SetOptOutInformation(ctx, operator)
 		} else {
-			h.keeper.operatorKeeper.DeleteOperatorAddressForChainIDAndConsAddr(
-				ctx, chainID, consAddr,
-			)
+			// the key never made it into the validator set, so there is nothing to wait for:
+			// complete the removal right away. Only deleting the reverse lookup here would
+			// leave the operator's key and its removal marker behind forever (nothing is
+			// scheduled to complete the removal), so the operator could never set a key
+			// again while another operator could register the very same key.
+			if err := h.keeper.operatorKeeper.CompleteOperatorKeyRemovalForChainID(
+				ctx, operator, chainID,
+			); err != nil {
+				h.keeper.Logger(ctx).Error(
+					"error completing operator key removal", "error", err,
+				)
+				h.keeper.operatorKeeper.DeleteOperatorAddressForChainIDAndConsAddr(
+					ctx, chainID, consAddr,
+				)
+			}
 		}
 	}
 }
